@@ -57,6 +57,8 @@ def to_z3(v):
     if isinstance(v, int):
         return z3.IntVal(v)
     if isinstance(v, float):
+        if v != v or v in (float("inf"), float("-inf")):
+            raise Unsupported("NaN/inf used as a number (declare the value nullable)")
         return realval(v)
     if isinstance(v, str):
         return z3.StringVal(v)
